@@ -133,6 +133,18 @@ static void s_compile_cond(Sc& s) { compile_only(s, frags_src(COND_FRAGS), "HEAD
 static void s_compile_strings_tiny(Sc& s) { g_arena_initial_size = 64; compile_only(s, frags_src(STR_FRAGS), "HEAD " + frags_plants(STR_FRAGS)); g_arena_initial_size = 0; }
 static void s_compile_regex_tiny(Sc& s) { g_arena_initial_size = 64; compile_only(s, frags_src(RE_FRAGS), "HEAD " + frags_plants(RE_FRAGS)); g_arena_initial_size = 0; }
 static void s_compile_cond_tiny(Sc& s) { g_arena_initial_size = 64; compile_only(s, frags_src(COND_FRAGS), "HEAD " + frags_plants(COND_FRAGS)); g_arena_initial_size = 0; }
+
+// A small rule set that goes through the emit sites of quantifiers, string sets, rule sets, `defined` and the
+// anonymous `$ # @ !` of a for-of body, compiled with arena buffers of S bytes for a range of S: every S puts the
+// growth reallocs of the code section at other instructions, so that (over all S) each emit is at some point the
+// one whose buffer growth fails.
+static const char* TINY_SRC =
+  "rule t_a { strings: $a = \"aaaa\" $b = \"bbbb\" condition: for any of them : ( $ at 0 or # > 1 or @ > 2 or ! > 3 ) }\n"
+  "rule t_b { strings: $a = \"aaaa\" $b1 = \"bbbb\" $b2 = \"cccc\" condition: none of ($b*) or all of ($a, $b1) or any of them }\n"
+  "rule t_c { condition: defined filesize and not defined uint8(filesize + 5) }\n"
+  "rule t_d { condition: any of (t_a, t_b) and 1 of (t_*) and for all i in (1, 2, 3) : ( i > 0 ) }\n";
+static const char* TINY_BUF = "aaaa....bbbb aaaa";
+template <int S> static void s_tiny_sweep(Sc& s) { g_arena_initial_size = S; compile_only(s, TINY_SRC, TINY_BUF); g_arena_initial_size = 0; }
 static void s_compile_pe(Sc& s) { compile_only(s, frags_src({"pe", "pefunc", "pesig", "perich"})); }
 static void s_compile_elf(Sc& s) { compile_only(s, frags_src({"elf", "elfsec"})); }
 static void s_compile_dotnet(Sc& s) { compile_only(s, frags_src({"dotnet"})); }
@@ -379,7 +391,7 @@ static void s_stats_profiling(Sc& s) {
 }
 
 static const Scenario SCENARIOS[] = {
-  {"init_fini", s_init_fini}, {"compile_strings", s_compile_strings}, {"compile_regex", s_compile_regex}, {"compile_cond", s_compile_cond}, {"compile_strings_tiny_arena", s_compile_strings_tiny}, {"compile_regex_tiny_arena", s_compile_regex_tiny}, {"compile_cond_tiny_arena", s_compile_cond_tiny},
+  {"init_fini", s_init_fini}, {"compile_strings", s_compile_strings}, {"compile_regex", s_compile_regex}, {"compile_cond", s_compile_cond}, {"compile_strings_tiny_arena", s_compile_strings_tiny}, {"compile_regex_tiny_arena", s_compile_regex_tiny}, {"compile_cond_tiny_arena", s_compile_cond_tiny}, {"compile_tiny_arena_16", s_tiny_sweep<16>}, {"compile_tiny_arena_24", s_tiny_sweep<24>}, {"compile_tiny_arena_32", s_tiny_sweep<32>}, {"compile_tiny_arena_40", s_tiny_sweep<40>}, {"compile_tiny_arena_48", s_tiny_sweep<48>}, {"compile_tiny_arena_56", s_tiny_sweep<56>}, {"compile_tiny_arena_64", s_tiny_sweep<64>}, {"compile_tiny_arena_72", s_tiny_sweep<72>}, {"compile_tiny_arena_80", s_tiny_sweep<80>}, {"compile_tiny_arena_88", s_tiny_sweep<88>}, {"compile_tiny_arena_96", s_tiny_sweep<96>}, {"compile_tiny_arena_104", s_tiny_sweep<104>}, {"compile_tiny_arena_112", s_tiny_sweep<112>}, {"compile_tiny_arena_120", s_tiny_sweep<120>}, {"compile_tiny_arena_128", s_tiny_sweep<128>}, {"compile_tiny_arena_136", s_tiny_sweep<136>},
   {"compile_pe", s_compile_pe}, {"compile_elf", s_compile_elf}, {"compile_dotnet", s_compile_dotnet}, {"compile_macho", s_compile_macho},
   {"compile_dex", s_compile_dex}, {"compile_small_mods", s_compile_small_mods}, {"compile_error", s_compile_error},
   {"compile_namespaces", s_compile_namespaces}, {"compile_include", s_compile_include}, {"externals", s_externals}, {"externals_retry", s_externals_retry}, {"scanner_define_string", s_scanner_define_string},
